@@ -118,3 +118,11 @@ impl MatchableTrait for Conditional {
         })
     }
 }
+
+/// Verification hooks (only with `--cfg sqruff_verif`): read-only accessors.
+#[cfg(sqruff_verif)]
+impl Conditional {
+    pub fn verif_meta_kind(&self) -> crate::dialects::syntax::SyntaxKind {
+        self.meta.kind
+    }
+}
